@@ -4,6 +4,7 @@
 //!
 //!   sv drive <family> --out <file.ndjson> [--tier quick|thorough] [--seed N]
 //!   sv replay <family> --in <behaviours.ndjson> --out <file.ndjson>
+mod ci;
 mod fam_a;
 mod fam_builder;
 mod fam_f;
